@@ -10,6 +10,7 @@ from . import tlc
 from .common import REPO, PY, MachineryError
 
 FILTER = '${%edition} == 4'
+FILTER_ED4_ONLY = '${%data_i18n_subcategory} == 0'      # a parameter that only edition 4 has
 ALL_MODES = '{[info |-> i, cont |-> c, filt |-> f, ive |-> FALSE] : i \\in BOOLEAN, c \\in BOOLEAN, f \\in BOOLEAN}'
 IVE_MODES = '{[info |-> FALSE, cont |-> c, filt |-> f, ive |-> TRUE] : c \\in BOOLEAN, f \\in BOOLEAN}'
 INVS = ['YieldsExactlyMessages', 'NeverRaisesOnValid', 'DecoyNeverStartsMessage', 'ContinueSkipsOnlyDamaged',
@@ -50,11 +51,15 @@ def run_case(c):
     try:
         with contextlib.redirect_stderr(io.StringIO()):
             for m in generate_bufr_message(Decoder(), data, info_only=mode['info'], continue_on_error=mode['cont'],
-                                           filter_expr=FILTER if mode['filt'] else None, **extra):
+                                           filter_expr=c.get('filter', FILTER) if mode['filt'] else None, **extra):
                 got.append(bytes(m.serialized_bytes))
     except PyBufrKitError as e:
         status = 'raised'
         errtype = type(e).__name__
+        try:
+            str(e), repr(e), getattr(e, 'message', '')          # a library error that cannot be reported is no report
+        except Exception as e2:
+            return (('scan', 'error-text', type(e2).__name__, faults), '%s: the error raised cannot be rendered as text: %r' % (feat, e2))
     except Exception as e:
         return (('scan', 'exception-type', type(e).__name__, faults), '%s: scanning raised %r (not the library error type)' % (feat, e))
     events = list(_verif.EVENTS)
